@@ -87,4 +87,115 @@ theorem cands_eq (bs : List Nat) (fp sp : Nat) (hsp : sp ≤ bs.length) (hfs : f
     simp; omega
   rw [h1, h2, h3]; simp
 
+/-! ### loops that fill / rewrite a byte slice element by element -/
+
+/-- a fold over `0 … n-1` that is fine up to `k` and fails at `k < n` fails -/
+theorem foldlM_range_error {τ : Type} (f : τ → Nat → Res τ) (t0 t : τ) (k n : Nat) (e : Fault) (hk : k < n)
+    (h1 : (List.range' 0 k).foldlM f t0 = .ok t) (h2 : f t k = .error e) :
+    (List.range' 0 n).foldlM f t0 = .error e := by
+  have hs : List.range' 0 n = List.range' 0 k ++ List.range' k (n - k) := by
+    have := List.range'_append_1 (s := 0) (m := k) (n := n - k)
+    rw [Nat.zero_add, show k + (n - k) = n by omega] at this
+    exact this.symm
+  obtain ⟨m, hm⟩ : ∃ m, n - k = m + 1 := ⟨n - k - 1, by omega⟩
+  rw [hs, List.foldlM_append, h1, hm, List.range'_succ]
+  simp only [bind, Except.bind, List.foldlM, h2]
+
+/-- one step of `dst[i] = g(src[i])` -/
+def fillStep (src : List Int) (g : Int → Int) (t : List Int) (i : Nat) : Res (List Int) :=
+  match idx src (i : Int) with
+  | .error e => .error e
+  | .ok v => setIdx t (i : Int) (g v)
+
+theorem foldlM_fill_prefix (src : List Int) (g : Int → Int) (dst : List Int) :
+    ∀ k, k ≤ dst.length → k ≤ src.length →
+      (List.range' 0 k).foldlM (fillStep src g) dst = .ok ((src.take k).map g ++ dst.drop k) := by
+  intro k
+  induction k with
+  | zero => intro _ _; simp [pure, Except.pure]
+  | succ k ih =>
+    intro h1 h2
+    rw [List.range'_1_concat, List.foldlM_append, ih (by omega) (by omega)]
+    simp only [bind, Except.bind, List.foldlM, Nat.zero_add, pure, Except.pure, fillStep]
+    rw [idx_ofNat _ _ (by omega)]
+    simp only []
+    rw [setIdx_ofNat _ _ _ (by simp; omega)]
+    simp only []
+    congr 1
+    apply List.ext_getElem
+    · simp; omega
+    · intro i hi1 hi2
+      simp only [List.getElem_set, List.getElem_append, List.length_map, List.length_take, List.getElem_map,
+        List.getElem_take, List.getElem_drop]
+      by_cases hi : i < k
+      · have : ¬ k = i := by omega
+        simp [this, hi, Nat.min_eq_left (by omega : k ≤ src.length), Nat.min_eq_left (by omega : k + 1 ≤ src.length)]
+        omega
+      · by_cases hn : k = i
+        · subst hn
+          simp [Nat.min_eq_left (by omega : k ≤ src.length), Nat.min_eq_left (by omega : k + 1 ≤ src.length)]
+        · have h3 : ¬ i < k + 1 := by omega
+          simp [hn, hi, h3, Nat.min_eq_left (by omega : k ≤ src.length), Nat.min_eq_left (by omega : k + 1 ≤ src.length)]
+          congr 1; omega
+
+/-- `for i := 0; i < n; i++ { dst[i] = g(src[i]) }` on a destination of at least `n` elements: the first `n` elements of
+    `src` through `g`, or the index panic of a too short `src` -/
+theorem foldlM_fill (src : List Int) (g : Int → Int) (dst : List Int) (n : Nat) (hd : n ≤ dst.length) :
+    (List.range' 0 n).foldlM (fillStep src g) dst =
+      if src.length < n then .error oob else .ok ((src.take n).map g ++ dst.drop n) := by
+  by_cases h : src.length < n
+  · simp only [h, if_true]
+    refine foldlM_range_error _ dst _ src.length n oob h (foldlM_fill_prefix src g dst src.length (by omega) (Nat.le_refl _)) ?_
+    simp [fillStep, idx_ge]
+  · simp only [h, if_false]
+    exact foldlM_fill_prefix src g dst n hd (by omega)
+
+/-- one step of `xs[i] = g(xs[i])` -/
+def mapStep (g : Int → Int) (t : List Int) (i : Nat) : Res (List Int) :=
+  match idx t (i : Int) with
+  | .error e => .error e
+  | .ok v => setIdx t (i : Int) (g v)
+
+theorem foldlM_mapInPlace_prefix (g : Int → Int) (xs : List Int) :
+    ∀ k, k ≤ xs.length →
+      (List.range' 0 k).foldlM (mapStep g) xs = .ok ((xs.take k).map g ++ xs.drop k) := by
+  intro k
+  induction k with
+  | zero => intro _; simp [pure, Except.pure]
+  | succ k ih =>
+    intro h1
+    rw [List.range'_1_concat, List.foldlM_append, ih (by omega)]
+    simp only [bind, Except.bind, List.foldlM, Nat.zero_add, pure, Except.pure, mapStep]
+    rw [idx_ofNat _ _ (by simp; omega)]
+    simp only []
+    rw [setIdx_ofNat _ _ _ (by simp; omega)]
+    simp only []
+    congr 1
+    apply List.ext_getElem
+    · simp; omega
+    · intro i hi1 hi2
+      simp only [List.getElem_set, List.getElem_append, List.length_map, List.length_take, List.getElem_map,
+        List.getElem_take, List.getElem_drop]
+      by_cases hi : i < k
+      · have : ¬ k = i := by omega
+        simp [this, hi, Nat.min_eq_left (by omega : k ≤ xs.length), Nat.min_eq_left (by omega : k + 1 ≤ xs.length)]
+        omega
+      · by_cases hn : k = i
+        · subst hn
+          simp [Nat.min_eq_left (by omega : k ≤ xs.length), Nat.min_eq_left (by omega : k + 1 ≤ xs.length)]
+        · have h3 : ¬ i < k + 1 := by omega
+          simp [hn, hi, h3, Nat.min_eq_left (by omega : k ≤ xs.length), Nat.min_eq_left (by omega : k + 1 ≤ xs.length)]
+          congr 1; omega
+
+/-- `for i := 0; i < n; i++ { xs[i] = g(xs[i]) }` -/
+theorem foldlM_mapInPlace (g : Int → Int) (xs : List Int) (n : Nat) :
+    (List.range' 0 n).foldlM (mapStep g) xs =
+      if xs.length < n then .error oob else .ok ((xs.take n).map g ++ xs.drop n) := by
+  by_cases h : xs.length < n
+  · simp only [h, if_true]
+    refine foldlM_range_error _ xs _ xs.length n oob h (foldlM_mapInPlace_prefix g xs xs.length (Nat.le_refl _)) ?_
+    simp [mapStep, idx_ge]
+  · simp only [h, if_false]
+    exact foldlM_mapInPlace_prefix g xs n (by omega)
+
 end Gzx.K17
